@@ -65,6 +65,7 @@ template <class C> Verdict giant_case(const Plan& plan, Stats& st, int ci) {
     if (!Giant<C>::init(360000000)) { st.probe("giant_mapping_unavailable"); return none; }
     if (need > Giant<C>::chars) { st.probe("giant_case_skipped_too_long"); return none; }
     g.giant_lo = (uintptr_t)Giant<C>::region; g.giant_hi = (uintptr_t)(Giant<C>::zero + 1);
+    g.step_budget = 30000000ull + 200ull * (unsigned long long)need * (unsigned long long)cs.items;   // room for several linear passes over the input
     std::vector<MgrInst> mgrs = build_managers({MK_SIM}, {0});
     typename A::QL* nodes = (typename A::QL*)arena_alloc(A_OBJ, sizeof(typename A::QL) * 2, 16, perm(P_R, RS_CONST_ARG));
     double true_len = 0;
